@@ -11,14 +11,48 @@ import (
 	"errors"
 	"fmt"
 	mrand "math/rand"
+	"net"
 	"os"
+	"path/filepath"
 	"reflect"
 	"sort"
 	"sync"
 	"sync/atomic"
 	"time"
 	"unsafe"
+
+	"golang.org/x/crypto/ssh/agent"
 )
+
+// KeyringListener listens on a fresh unix socket; every accepted connection is served by its own real keyring
+// (holding one ed25519 key) behind a frame proxy.  Code under test reaches it with its exported constructors.
+func KeyringListener(label string) (sock string, cleanup func(), err error) {
+	dir, err := os.MkdirTemp("", "vw")
+	if err != nil {
+		return "", nil, err
+	}
+	sock = filepath.Join(dir, "a.sock")
+	ln, err := net.Listen("unix", sock)
+	if err != nil {
+		os.RemoveAll(dir)
+		return "", nil, err
+	}
+	go func() {
+		n := int64(0)
+		for {
+			c, err := ln.Accept()
+			if err != nil {
+				return
+			}
+			n++
+			kr := agent.NewKeyring()
+			_ = kr.Add(agent.AddedKey{PrivateKey: PoolKey(0, "ed25519").Priv, Comment: "k0"})
+			px := NewProxyIdle(kr, NewRand(label, n))
+			px.Serve(c)
+		}
+	}()
+	return sock, func() { ln.Close(); os.RemoveAll(dir) }, nil
+}
 
 // WaitBinding is one way of reaching the code under test.
 type WaitBinding interface {
@@ -96,7 +130,15 @@ type WaitPlan struct {
 	Par     int        `json:"par"`
 	GraceMs int        `json:"grace_ms"`
 	MaxPark int        `json:"max_park"`
+	// RegMs: timing observer only - a Wait call that has not returned this long after it was issued counts as parked
+	RegMs int `json:"reg_ms"`
 }
+
+// Hints of the timing observer (they decide how long it keeps looking, never what is recorded).
+const (
+	waitTableHint = 40
+	waitCodeHint  = 35
+)
 
 // WaitSummary is printed as VERIF-SUMMARY.
 type WaitSummary struct {
@@ -110,6 +152,9 @@ type WaitSummary struct {
 	Skipped   int    `json:"skipped"`
 	MaxParked int    `json:"max_parked"`
 	Leaked    int    `json:"leaked"`
+	// Observer: "notify-lists" (parked goroutines read from the condition variables) or "timing" (no such table in
+	// the server: parked = the call has not returned reg_ms after it was issued)
+	Observer string `json:"observer"`
 	// Classes counts the requests sent by class (kind of frame / what the dispatcher did with it after the broadcast)
 	Classes map[string]int `json:"classes"`
 }
@@ -158,6 +203,79 @@ type walkRun struct {
 	rnd    *mrand.Rand
 	slow   int
 	maxPar int
+	timing bool
+	regMs  time.Duration
+}
+
+// expected lists the Wait calls that a step should make return (parked on an arriving code; new ones on a code
+// outside the table).  Only the timing observer uses it, and only to know how long to keep looking.
+func (w *walkRun) expected(st WaitStep) []string {
+	arr := map[int]bool{}
+	for _, c := range st.Cs {
+		arr[c] = true
+	}
+	if w.b.Via() && len(st.Ws) > 0 {
+		arr[waitCodeHint] = true
+	}
+	var out []string
+	w.mu.Lock()
+	for _, id := range w.order {
+		if !w.ret[id] && w.reg[id] < waitTableHint && arr[w.reg[id]] {
+			out = append(out, id)
+		}
+	}
+	w.mu.Unlock()
+	for k, id := range st.Ws {
+		if st.Wc[k] >= waitTableHint {
+			out = append(out, id)
+		}
+	}
+	return out
+}
+
+// observeTiming: wait (up to 3 s) for the calls the step should release, then keep looking for `watch` and report
+// the calls that have still not returned as parked.
+func (w *walkRun) observeTiming(expect []string, watch time.Duration) (int, [][2]int, error) {
+	t0 := time.Now()
+	for {
+		w.mu.Lock()
+		all := true
+		for _, id := range expect {
+			if !w.ret[id] {
+				all = false
+			}
+		}
+		w.mu.Unlock()
+		el := time.Since(t0)
+		if all || el > 3*time.Second {
+			if el > time.Second {
+				w.slow++
+			}
+			break
+		}
+		if el < 5*time.Millisecond {
+			time.Sleep(150 * time.Microsecond)
+		} else {
+			time.Sleep(time.Millisecond)
+		}
+	}
+	for k := 0; k < 4; k++ { // several polls; a return seen at any of them is kept (returns are sticky)
+		time.Sleep(watch / 4)
+	}
+	w.mu.Lock()
+	defer w.mu.Unlock()
+	cnt := map[int]int{}
+	for _, id := range w.order {
+		if !w.ret[id] {
+			cnt[w.reg[id]]++
+		}
+	}
+	by := [][2]int{}
+	for c, n := range cnt {
+		by = append(by, [2]int{c, n})
+	}
+	sort.Slice(by, func(i, j int) bool { return by[i][0] < by[j][0] })
+	return w.open, by, nil
 }
 
 func (w *walkRun) snapshot() *wState {
@@ -313,8 +431,8 @@ func (w *walkRun) requests(cs []int, stagger bool) error {
 	}
 }
 
-func runWalk(wk WaitWalk, b WaitBinding, grace time.Duration, maxPark int, rnd *mrand.Rand) (recs []interface{}, sum WaitSummary) {
-	w := &walkRun{b: b, reg: map[string]int{}, ret: map[string]bool{}, grace: grace, rnd: rnd}
+func runWalk(wk WaitWalk, b WaitBinding, grace, regMs time.Duration, timing bool, maxPark int, rnd *mrand.Rand) (recs []interface{}, sum WaitSummary) {
+	w := &walkRun{b: b, reg: map[string]int{}, ret: map[string]bool{}, grace: grace, rnd: rnd, timing: timing, regMs: regMs}
 	cur := w.snapshot()
 	recs = append(recs, wRec{Ev: "reset", Tid: wk.ID, Post: cur})
 	nv := func(i int, err error) {
@@ -351,22 +469,41 @@ func runWalk(wk WaitWalk, b WaitBinding, grace time.Duration, maxPark int, rnd *
 		var n int
 		var by [][2]int
 		var err error
+		expect := w.expected(st)
+		watch := w.grace
+		for _, c := range st.Wc {
+			if c < waitTableHint {
+				watch = w.regMs
+			}
+		}
 		switch st.Op {
 		case "reg":
 			for k, id := range st.Ws {
 				w.start(id, st.Wc[k], 0)
 			}
-			n, by, err = w.quiesce(2*time.Second, 30*time.Second)
+			if w.timing {
+				n, by, err = w.observeTiming(expect, watch)
+			} else {
+				n, by, err = w.quiesce(2*time.Second, 30*time.Second)
+			}
 		case "request":
 			if err = w.requests(st.Cs, len(st.Cs) > 1); err == nil {
-				n, by, err = w.settle()
+				if w.timing {
+					n, by, err = w.observeTiming(expect, watch)
+				} else {
+					n, by, err = w.settle()
+				}
 			}
 		case "race":
 			for k, id := range st.Ws {
 				w.start(id, st.Wc[k], time.Duration(rnd.Intn(400))*time.Microsecond)
 			}
 			if err = w.requests(st.Cs, true); err == nil {
-				n, by, err = w.settle()
+				if w.timing {
+					n, by, err = w.observeTiming(expect, watch)
+				} else {
+					n, by, err = w.settle()
+				}
 			}
 		default:
 			err = errors.New("unknown step kind " + st.Op)
@@ -448,7 +585,26 @@ func RunWaitPlan(mk func(r *mrand.Rand) (WaitBinding, error)) (WaitSummary, erro
 	if grace <= 0 {
 		grace = 60 * time.Millisecond
 	}
+	regMs := time.Duration(plan.RegMs) * time.Millisecond
+	if regMs <= 0 {
+		regMs = 150 * time.Millisecond
+	}
 	var total WaitSummary
+	// which observer: are the notify lists of a table of condition variables readable on this server?
+	timing := false
+	if pb, err := mk(NewRand("wait-probe", 0)); err != nil {
+		return total, err
+	} else {
+		if _, _, cerr := pb.Counts(); cerr != nil {
+			timing = true
+			plan.Par *= 4 // the timing observer mostly sleeps
+		}
+		pb.Close()
+	}
+	total.Observer = "notify-lists"
+	if timing {
+		total.Observer = "timing"
+	}
 	var mu sync.Mutex
 	var firstErr error
 	sem := make(chan struct{}, plan.Par)
@@ -469,7 +625,7 @@ func RunWaitPlan(mk func(r *mrand.Rand) (WaitBinding, error)) (WaitSummary, erro
 				mu.Unlock()
 				return
 			}
-			recs, s := runWalk(wk, b, grace, plan.MaxPark, rnd)
+			recs, s := runWalk(wk, b, grace, regMs, timing, plan.MaxPark, rnd)
 			if s.NoVerdict == 0 {
 				tr.EmitAll(recs)
 			}
